@@ -181,6 +181,33 @@ func (p *PKI) reloadCerts(c *config.C, initial bool) *util.ContextualError {
 					nil,
 				)
 			}
+
+			if currentState.v2Cert.Curve() != newState.v1Cert.Curve() {
+				return util.NewContextualError(
+					"Curve in new v1 cert was different from old v2 cert",
+					m{"new_curve": newState.v1Cert.Curve(), "old_curve": currentState.v2Cert.Curve()},
+					nil,
+				)
+			}
+		}
+
+		if currentState.v2Cert == nil && currentState.v1Cert != nil && newState.v1Cert == nil && newState.v2Cert != nil {
+			//going from v1-only to v2-only, nothing above compared the two
+			if !slices.Equal(currentState.v1Cert.Networks(), newState.v2Cert.Networks()) {
+				return util.NewContextualError(
+					"Replacing a V1 cert with a V2 cert is not permitted unless it has identical networks",
+					m{"new_v2_networks": newState.v2Cert.Networks(), "old_v1_networks": currentState.v1Cert.Networks()},
+					nil,
+				)
+			}
+
+			if currentState.v1Cert.Curve() != newState.v2Cert.Curve() {
+				return util.NewContextualError(
+					"Curve in new v2 cert was different from old v1 cert",
+					m{"new_curve": newState.v2Cert.Curve(), "old_curve": currentState.v1Cert.Curve()},
+					nil,
+				)
+			}
 		}
 	}
 
